@@ -780,6 +780,26 @@ example : clearSearch (swapLR cubePts) (cubeHull.reverse.map (fun s => (perm [1,
     = some cubePts := by decide +kernel
 
 
+/-! ### round 6b: duplicated vertices (merged patches)
+
+`Mesh.merge_patches(master, slave)` keeps two vertex objects at every position of the common face.  A finder iterates
+over vertex *objects*; "exact" on such a mesh means: of the objects at one position either all are returned or none. -/
+
+/-- two vertex objects `i ≠ j` at the same position are returned together or not at all — by the sphere finder, the plane
+    finder and the round-shape finder (`_find_from_points`, hence `find_core` / `find_shell`), for every query -/
+theorem T_C18_duplicates_together (vs : List V3) (i j : Nat) (hi : i < vs.length) (hj : j < vs.length)
+    (h : vs.getD i V3.zero = vs.getD j V3.zero) :
+    (∀ c r, i ∈ findInSphere vs c r ↔ j ∈ findInSphere vs c r) ∧
+    (∀ o n, i ∈ findOnPlane vs o n ↔ j ∈ findOnPlane vs o n) ∧
+    (∀ ps, i ∈ findFromPoints vs ps ↔ j ∈ findFromPoints vs ps) := by
+  refine ⟨fun c r => ?_, fun o n => ?_, fun ps => ?_⟩
+  · simp only [findInSphere, mem_findIdx, hi, hj, h]
+  · simp only [findOnPlane, mem_findIdx, hi, hj, h]
+  · simp only [findFromPoints, mem_findIdx, hi, hj, h]
+
+/-- both copies are found where one is: a mesh with the vertex of index 0 duplicated at index 2, default radius -/
+example : findInSphere [⟨1, 0, 0⟩, ⟨2, 0, 0⟩, ⟨1, 0, 0⟩] ⟨1, 0, 0⟩ none = [0, 2] := by decide +kernel
+
 /-! ### round 6: tie to the source text
 
 `cbv/tables/c18.py` reads the anchored functions of the CURRENT source with `ast` on every run (comparisons, slices, the
